@@ -54,6 +54,31 @@ async fn run_case(rep: &mut Report, args: &Args, case_seed: u64) {
     let n_tasks = 8 + rng.usize_below(40);
     let rounds = 3 + rng.usize_below(6);
     let calls: Arc<Mutex<Vec<Call>>> = Arc::new(Mutex::new(Vec::new()));
+    // aged streams (1 case in 3, small segments): the hot streams get a history that spans two or more sealed
+    // segments, then a filler stream rolls the segment over once more, so that when the race starts the writer has
+    // to find the hot streams' current versions in the sealed segments, not in the live one
+    if cfg.segment_size == 128 * 1024 && rng.chance(1, 3) {
+        let mut ids = Ids { counter: 1 << 30 };
+        let mut versions: std::collections::BTreeMap<String, u64> = Default::default();
+        let mut pre: Vec<(usize, String)> = Vec::new();
+        for i in 0..70 { let (_, pid) = keys[i % keys.len()]; pre.push((i % keys.len(), format!("hot-{pid}-{}", (i / keys.len()) % n_streams))); }
+        for i in 0..45 { let (_, pid) = keys[i % keys.len()]; pre.push((i % keys.len(), format!("filler-{pid}"))); }
+        for (ki, stream) in pre {
+            let (pk, pid) = keys[ki];
+            let exp = match versions.get(&stream) { None => Exp::Empty, Some(v) => Exp::Exact(*v) };
+            let ev = MNewEvent { event_id: ids.with_hash(&mut rng, hash_of_key(pk)), stream: stream.clone(), expected: exp, name: "P".into(), timestamp: 1_700_000_000_000_000_000, metadata: vec![], payload: rng.bytes(3500) };
+            let t = MTxn { partition_key: pk, partition_id: pid, txn_id: ids.txn_id(&mut rng, true), events: vec![ev], expected_seq: Exp::Any, confirmation_count: 0 };
+            let inv = hooks::tick();
+            let res = db.append_events(to_store_txn(&t).unwrap()).await;
+            let ret = hooks::tick();
+            let (ok, err) = match res {
+                Ok(a) => { versions.insert(stream, *a.stream_versions.values().next().unwrap_or(&0)); (Some((a.first_partition_sequence, a.last_partition_sequence, a.stream_versions.iter().map(|(k, v)| (k.to_string(), *v)).collect())), String::new()) }
+                Err(e) => (None, write_error_class(&e).to_string()),
+            };
+            calls.lock().unwrap().push(Call { txn: t, inv, ret, ok, err });
+        }
+        rep.count("cases_with_aged_hot_streams", 1);
+    }
     let mut hs = Vec::new();
     for tk in 0..n_tasks {
         let db = db.clone();
